@@ -20,7 +20,7 @@ RULE = ('2-3 real ActiveObjects, each with spied or un-spied states (drawn indep
 ASSUMPTIONS = ['no stop in this stratum; publications concurrent with a subscription may or may not reach it']
 PROBES = ['unspied_subscriber', 'late_subscriber_with_prior_subscribers', 'publish_before_start', 'subscribe_from_handler']
 PLAN = {
-  'quick': {'strata': {'configs': 3000, 'concurrent-subscribe': 1500}, 'wall_s': 150, 'chunk': 50, 'min_conclusive': 800},
+  'quick': {'strata': {'configs': 3000, 'concurrent-subscribe': 1500}, 'wall_s': 300, 'chunk': 50, 'min_conclusive': 800},
   'thorough': {'strata': {'configs': 80000, 'concurrent-subscribe': 40000}, 'wall_s': 900, 'chunk': 100, 'min_conclusive': 8000},
 }
 
